@@ -170,6 +170,20 @@ func genC13(cfg Config, ws *WorldSet, i, nctx int) C13Case {
 		}
 		c.Ctxs = append(c.Ctxs, x)
 	}
+	// in the worlds that have the package twin, one context of every group finds the
+	// valid-but-stale older result (not left to the draw: a family of defects shows
+	// only there)
+	if _, twin := c.World.Files["mod/legacy/hooks/hooks.go"]; twin && len(c.Ctxs) > 1 {
+		has := false
+		for _, x := range c.Ctxs {
+			has = has || x.StalePrior
+		}
+		if !has {
+			x := &c.Ctxs[1]
+			x.KeepPrior, x.AlterPrior, x.StalePrior = true, false, true
+			x.Dims["prior-output"] = "kept, imports as of the package's former location"
+		}
+	}
 	return c
 }
 
